@@ -92,6 +92,13 @@ class Closure:
 _NOT_EVALUATED = object()
 
 
+def _hashable_key(k):
+    """A key the interpreter may use in a Python dict as it is: constants, abstract objects (identity), tuples of these."""
+    if k is None or isinstance(k, (str, int, Obj)):
+        return True
+    return isinstance(k, tuple) and all(_hashable_key(x) for x in k)
+
+
 class LazyGen:
     """A generator expression that has not been consumed yet.  As in Python, the first iterable was evaluated
     when the expression was created; everything else is evaluated when it is consumed, in the enclosing
@@ -473,7 +480,7 @@ class Interp:
         elif isinstance(target, ast.Subscript):
             base = self.eval(target.value, env, f)
             key = self.eval(target.slice, env, f)
-            if isinstance(base, dict) and isinstance(key, (str, int, Obj)):
+            if isinstance(base, dict) and _hashable_key(key):
                 base[key] = v
             elif isinstance(base, list) and isinstance(key, int) and not isinstance(key, bool) and -len(base) <= key < len(base):
                 base[key] = v
@@ -508,7 +515,7 @@ class Interp:
         if isinstance(v, Obj) and "__bool__" in v.attrs:
             b = v.attrs["__bool__"]
             return b() if callable(b) else b
-        if isinstance(v, (Obj, Record, Sized)):
+        if isinstance(v, (Obj, Record, Sized, DefClosure, Closure, PyFunc, BoundMethod)):
             return True
         if isinstance(v, (Val, Sym)):
             return TOP
@@ -562,6 +569,8 @@ class Interp:
         if isinstance(op, (ast.In, ast.NotIn)):
             if a is TOP or b is TOP:
                 return TOP
+            if isinstance(a, str) and isinstance(b, str) and not a.startswith("<") and not b.startswith("<"):
+                return (a in b) if isinstance(op, ast.In) else (a not in b)
             if isinstance(b, (tuple, list, dict)) and isinstance(a, (str, int, type(None))):
                 if isinstance(b, dict) or all(isinstance(x, (str, int, type(None))) for x in b):
                     r = a in b
@@ -768,7 +777,7 @@ class Interp:
                     return base[key]
                 except IndexError:
                     raise _Raise("IndexError")
-            if isinstance(base, dict) and isinstance(key, (str, int, Obj)):
+            if isinstance(base, dict) and _hashable_key(key):
                 if key in base or isinstance(base, _collections.defaultdict):
                     return base[key]
                 raise _Raise("KeyError")
@@ -1108,6 +1117,12 @@ class Interp:
                     return dict(base)
             if isinstance(base, str) and m == "lower":
                 return base.lower()
+            if isinstance(base, str) and not base.startswith("<") and m in ("split", "startswith", "endswith", "strip", "upper", "isdigit", "rsplit", "lstrip", "rstrip") \
+                    and all(isinstance(a, (str, int)) for a in args) and not kwargs:
+                return getattr(base, m)(*args)
+            if isinstance(base, str) and not base.startswith("<") and m == "join" and len(args) == 1 and isinstance(args[0], (list, tuple)) \
+                    and all(isinstance(a, str) and not a.startswith("<") for a in args[0]):
+                return base.join(args[0])
             if self.strict_self_calls and isinstance(base, (list, dict, set)):
                 raise Unsupported("method %s() of an abstract %s, whose effect the interpreter does not model" % (m, type(base).__name__))
             return TOP
@@ -1257,5 +1272,13 @@ class Interp:
             names = names[1:]
         for n, v in zip(names, args):
             env[n] = v
+        if a.vararg is not None:
+            env[a.vararg.arg] = tuple(args[len(names):])
+        elif len(args) > len(names):
+            raise Unsupported("call of %s with more positional arguments than it takes" % tgt.qualname)
+        if a.kwarg is not None:
+            known = set(names) | {x.arg for x in a.kwonlyargs}
+            env[a.kwarg.arg] = {k: v for k, v in kwargs.items() if k not in known}
+            kwargs = {k: v for k, v in kwargs.items() if k in known}
         env.update(kwargs)
         return self.call_func(tgt, env)
